@@ -427,13 +427,49 @@ def units(ctx, prog, only=None):
         return None
     A.require('check_revocation_bitmap_status/accepted-only-if-index-not-in-the-issuers-bitmap', paths, r_rbs, replay=RU)
 
+    # ---- subject-holder relationship: "the holder is the subject" means the one subject's id *is present and equal* to the holder
+    f = prog.one(r'jwt_credential_validator_utils::<impl at [^>]*>::check_subject_holder_relationship$')
+    paths, ex = A.paths(f, inline=r'check_subject_holder_relationship::\{closure')
+    REL = prog.enums['SubjectHolderRelationship']
+    nt = CR.index('non_transferable')
+
+    def r_shr(p):
+        if p.kind != 'return':
+            return 'panic ' + p.msg
+        d = ex.discr_var(('leaf', 'relationship'))
+        rel = [k for k, v in REL.items() if p.implies(d == z3.BitVecVal(v, 64))]
+        if len(rel) != 1:
+            return None    # relation not fixed on this path (decided before the relation is looked at)
+        rel = rel[0]
+        eqs = [c for c in p.calls if re.search(r'PartialEq.*>::eq$', c.name) and mentions(c.args, r'^credential$') and mentions(c.args, r'^holder$')]
+        matched = any(p.took(c.ret, 'true') for c in eqs)
+        opaque = [c for c in p.calls if re.search(r'Iterator>::(all|any|fold|find)$|Option<.*>::(is_none_or|map_or|is_some_and)$', c.name)]
+        if opaque:
+            return 'the subject-id / holder comparison goes through %s: an absent id may count as a match' % opaque[0].name.split('::')[-1]
+        ntv = ('field', ('deref', ('leaf', 'credential')), nt, '')
+        non_transferable = p.took(ntv, 'Some') and p.took(('field', ntv, 0, 'Some'), 'true')
+        if p.is_ok():
+            if rel == 'AlwaysSubject' and not matched:
+                return 'AlwaysSubject satisfied without the subject id being present and equal to the holder'
+            if rel == 'SubjectOnNonTransferable' and non_transferable and not matched:
+                return 'non-transferable credential accepted for a holder that is not its subject'
+            return None
+        if rel == 'Any':
+            return 'relationship Any refused'
+        if matched:
+            return 'refused although the subject is the holder'
+        if rel == 'SubjectOnNonTransferable' and not non_transferable:
+            return 'transferable credential refused under SubjectOnNonTransferable'
+        return None
+    A.require('check_subject_holder_relationship/subject-id-present-and-equal', paths, r_shr, replay=RU)
+
 
 def main(ctx):
     prog, info = load(CRATES, src_only=SRC)
     ctx.extra['mir'] = info
     ctx.bounds.append('all paths of validate / verify_signature_with_verifier / parse_jwk / verify_decoded_signature; '
                       'validate_decoded_credential evaluated over all 2^5 unit outcomes x fail-fast mode x option presence')
-    ctx.outside += ['JSON parsing of claims/headers', 'cryptographic verification', 'check_subject_holder_relationship body (iterator code over the subjects)', ]
+    ctx.outside += ['JSON parsing of claims/headers', 'cryptographic verification', ]
     guarded(ctx, 'credential validation audit', 'M', lambda: run(ctx, prog))
     guarded(ctx, 'validation unit bodies', 'M', lambda: units(ctx, prog))
     # the kid (a typed DIDUrl) is resolved inside the issuer document within the configured scope: C04's obligations on the query
@@ -444,3 +480,7 @@ def main(ctx):
         prog2, info2 = load(c04.CRATES, src_only=c04.SRC)
         c04.run(ctx, prog2, only=r'^DIDUrlQuery::from<|^resolve_method/|^resolve_method_ref/')
     guarded(ctx, 'method lookup in the issuer document', 'M', method_lookup)
+    # "the credential returned is the one that was signed" and the issuance bound both read the issuance date: nbf, else iat (C07's
+    # numeric-date obligation, re-used)
+    import c07
+    guarded(ctx, 'issuance date of the claims (shared with C07)', 'M', lambda: c07.run(ctx, load(c07.CRATES, src_only=c07.SRC)[0], only=r'^numeric-dates/'))
